@@ -98,6 +98,9 @@ type interpreter struct {
 	cfg                *Config
 	ps                 *pathState
 	tmpl               *interpreter // post-init template (shared, read-only) or nil
+	evlog              *eventLog    // race mode: recorded events
+	raceStats          string
+	raceTotalEvents    int
 }
 
 type deferred struct {
@@ -275,6 +278,11 @@ func visitInstr(fr *frame, instr ssa.Instruction) continuation {
 			bp.seg.buf.writes = append(bp.seg.buf.writes, bwrite{off: cur.add(bp.seg.off, bp.idx), val: cur.toTerm(fr.get(instr.Val), types.Uint8)})
 			break
 		}
+		if fr.i.evlog != nil {
+			if a := fr.get(instr.Addr).(*value); !sameValue(*a, fr.get(instr.Val)) {
+				fr.i.recordAccess(fr, a, true, instr.Pos(), instr.Addr)
+			}
+		}
 		store(typeparams.MustDeref(instr.Addr.Type()), fr.get(instr.Addr).(*value), fr.get(instr.Val))
 
 	case *ssa.If:
@@ -308,7 +316,7 @@ func visitInstr(fr *frame, instr ssa.Instruction) continuation {
 
 	case *ssa.Go:
 		fn, args := prepareCall(fr, &instr.Call)
-		fr.i.spawn(fn, args)
+		fr.i.spawnAt(fn, args)
 
 	case *ssa.MakeChan:
 		fr.env[fr.slot(instr)] = &gchan{cap: int(asInt64(fr.get(instr.Size)))}
@@ -871,3 +879,18 @@ func infoOf(fn *ssa.Function) *fnInfo {
 }
 
 func (fr *frame) slot(v ssa.Value) int { return fr.info.slots[v] }
+
+// sameValue: a store that leaves the cell unchanged (e.g. the self-assignment go/ssa
+// emits for `return namedResult`) is not recorded as a write.
+func sameValue(a, b value) (eq bool) {
+	defer func() {
+		if recover() != nil {
+			eq = false
+		}
+	}()
+	switch a.(type) {
+	case *gchan, *value, bool, int, int8, int16, int32, int64, uint, uint8, uint16, uint32, uint64, uintptr, string:
+		return a == b
+	}
+	return false
+}
